@@ -27,7 +27,8 @@ def gen_cases(tier, seed):
                 if tier == "quick" and (si + len(name)) % 2:
                     continue
                 c = {"init": name, "shape": shp, "dtype": ["float32", "float64"][(si + rep) % 2], "req": bool((si + rep) % 3 == 0),
-                     "seed": int(rng.integers(2 ** 31)), "np_scalar_args": bool((si + rep + len(name)) % 4 == 0)}
+                     "seed": int(rng.integers(2 ** 31)), "np_scalar_args": bool((si + rep + len(name)) % 4 == 0),
+                     "under_no_grad": bool((si + rep) % 3 == 0)}
                 if name == "uniform_":
                     a = float(rng.uniform(-3, 1)); c["args"] = {"a": a, "b": a + float(rng.uniform(0.1, 4))}
                 elif name == "normal_":
@@ -194,7 +195,11 @@ def run_case(ns, ctx, c):
             return fn(t, a=a["a"], mode=a["mode"], nonlinearity=a["nonlinearity"])
         return fn(t)
     try:
-        r = call()
+        if c.get("under_no_grad"):
+            with ns.sg.no_grad():
+                r = call()
+        else:
+            r = call()
     except Exception as e:
         return {"viol": [V(f"{name}:raises", f"{name} raised {type(e).__name__}", error=str(e)[:200], args=a)], "counters": counters}
     counters["init_calls"] = 1
